@@ -43,7 +43,8 @@ func drawH2Opts(ch *sim.Choices, who string) peers.H2Opts {
 		o.EncTable = pickFrom(ch, "params", who+":enctables", [][]uint32{{0, 4096}, {4096, 100, 4096, 0}, {30, 60, 4096}})
 	}
 	if ch.Bool("params", who+":newtable") {
-		o.NewTable = pickFrom(ch, "params", who+":newtables", [][]uint32{{0}, {100, 4096}, {0, 4096, 50}, {65536, 10}})
+		o.NewTable = pickFrom(ch, "params", who+":newtables", [][]uint32{{0}, {100, 4096}, {0, 4096, 50}, {65536, 10}, {0, 4096, 2048}, {0, 4096, 1000, 4096}})
+		o.TablePair = ch.Bool("params", who+":tablepair")
 	}
 	return o
 }
@@ -133,6 +134,7 @@ func (w *Proxy) setupH2Client(ci int, reqIdxP *int) {
 	w.h2clients = append(w.h2clients, cl)
 	seg := p.SegMode
 	t := time.Duration(ch.Pick("work", "connat", 5)) * time.Millisecond
+	var sendAt []time.Duration
 	for k := 0; k < p.ReqsPerConn; k++ {
 		reqIdx++
 		t += pickFrom(ch, "work", "gap", []time.Duration{0, 0, time.Millisecond, 10 * time.Millisecond, 100 * time.Millisecond})
@@ -190,6 +192,7 @@ func (w *Proxy) setupH2Client(ci int, reqIdxP *int) {
 		w.H.Add(r)
 		w.sendsPending++
 		tt := t
+		sendAt = append(sendAt, tt)
 		s.At(tt, fmt.Sprintf("send:req#%d", r.Idx), func() {
 			w.sendsPending--
 			if cl.Conn == nil && !cl.Tried {
@@ -209,9 +212,19 @@ func (w *Proxy) setupH2Client(ci int, reqIdxP *int) {
 		}
 	}
 	// SETTINGS_HEADER_TABLE_SIZE changes in the middle of the connection's life
+	// ... right after the k-th request has been sent (so that header blocks lie between the changes)
 	for i, v := range cl.O.NewTable {
-		v := v
-		s.At(t/2+time.Duration(i)*7*time.Millisecond, "h2table:"+cl.Name, func() { cl.ChangeTableSize(v) })
+		i, v := i, v
+		at := t/2 + time.Duration(i)*7*time.Millisecond
+		if i < len(sendAt) {
+			at = sendAt[i] + time.Millisecond
+		}
+		s.At(at, "h2table:"+cl.Name, func() {
+			cl.ChangeTableSize(v)
+			if v == 0 && cl.O.TablePair && i+1 < len(cl.O.NewTable) {
+				cl.ChangeTableSize(cl.O.NewTable[i+1]) // shrink to nothing and grow again between two header blocks
+			}
+		})
 	}
 }
 
